@@ -29,9 +29,19 @@ def jobs(tier):
         J.append(Job('P-quantvals-highdim-e%d-g%d-d%d'%(ent,guess,dim),'C02/p_quantvals.c',defs=['-DENTC=%d'%ent,'-DGUESSC=%d'%guess,'-DDLO=%d'%dim,'-DDHI=%d'%dim],unwind=132,unwindset=[('_book_maptype1_quantvals',r'while\\(1\\)',6)],
             witnesses=['dim >= 64'] if dim>=64 else [],witness=(dim>=64),models=['libm guess fixed to %d'%guess],functions=['_book_maptype1_quantvals'],
             bounds='concrete configuration entries %d, guess %d, dim %d (with symbolic dim or entries the 64-bit divisions exhaust 12 GB): termination and value where (vals+1)^dim overflows 64 bits'%(ent,guess,dim),weight=1))
+    J.append(Job('P-floor0','C02/p_floor0.c',unwind=18,unwindset=[('ov_ilog',None,34),('harness',r'i<256',257)],checks=['leak'],witnesses=['accepted','accepted with several books','rejected'],models=BS,
+        functions=['floor0_unpack','floor0_free_info'],bounds='any packet <= 40 bytes (the header is at most 186 bits); all 16 book slots; 3 arbitrary book descriptors shared by the 256 slots',weight=1))
+    for dimc,m in ([(1,3),(2,5)] if q else [(1,3),(2,5),(3,8),(1,6),(2,4)]):
+        J.append(Job('K-floor0-d%d-m%d'%(dimc,m),'C02/k_floor0.c',defs=['-DMMAX=%d'%m,'-DMFIX=%d'%m,'-DNBK=3','-DDIMC=%d'%dimc],unwind=18,unwindset=[('ov_ilog',None,34)],checks=['leak'],
+            witnesses=['coefficients decoded','unused / end of packet']+(['three or more vectors'] if m>2*dimc else []),models=BS+['vorbis_book_decodev_set cut: delivers tagged scalars 1,2,4,.. or end of packet (its own harness: K-bookvec)','_vorbis_block_alloc = constant-size malloc of the checked request'],
+            functions=['floor0_inverse1','floor0_look','floor0_free_look'],bounds='order %d, book dimension %d, <=3 codebooks, 1..16 book slots (slots beyond numbooks arbitrary), amplitude field 0..63 bits, packet <= 40 bytes'%(m,dimc),weight=2))
+    for ab in (8,31,32):
+        J.append(Job('K-floor0-amp%d'%ab,'C02/k_floor0.c',defs=['-DMMAX=1','-DMFIX=1','-DNBK=1','-DDIMC=1','-DAMPB=%d'%ab],unwind=18,unwindset=[('ov_ilog',None,34)],checks=['leak'],
+            witnesses=['coefficients decoded','unused / end of packet']+(['32-bit amplitude with the top bit set'] if ab==32 else []),models=BS,functions=['floor0_inverse1'],
+            bounds='amplitude field of %d bits, every field value; order 1'%ab+(' (exact oracle)' if ab<=16 else ' (range oracle: finite, within [0,offset], non-zero for large fields)'),weight=2))
     return J
 CLAIM={'text':'Assume-guarantee chain of bounded model checks on the real packet-level decoder: header parsers on arbitrary input as producers of validity predicates (codebook, residue; comment via C16) with leak checks on every reject path, the lattice-size kernel incl. dim==0, the audio packet prologue against the specification for every packet, decoder init/retry/clear histories, and the accumulator step (vorbis_synthesis_blockin/pcmout/read) as an inductive step from every valid state.',
- 'note':'Trusted: M-bitsrc over-approximates packet contents for parsers; M-bitpack for the prologue; contract stubs at the cuts listed per harness; allocation failure out of scope. Bounds per job (entries <= 3-4, partitions <= 4-8, packets <= 19-24 bytes...). NOT yet covered (planned in DESIGN section 3 C02, not built): floor0/floor1/mapping parsers, _vorbis_unpack_books, vorbis_book_init_decode and Huffman decode, floor/residue/mapping inverse kernels, stack budget (alloca) monitor. The claim is therefore memory safety and termination of the listed units only, not of the whole packet API.'}
+ 'note':'Trusted: M-bitsrc over-approximates packet contents for parsers; M-bitpack for the prologue; contract stubs at the cuts listed per harness; allocation failure out of scope. Bounds per job (entries <= 3-4, partitions <= 4-8, packets <= 19-24 bytes...). Also: floor-0 set-up parser (P-floor0) and floor-0 packet decode (K-floor0: book selection stays inside the books of that floor, vector request = order+dim+1 floats, D21 amplitude scale). NOT yet covered (planned in DESIGN section 3 C02, not built): floor1/mapping parsers, _vorbis_unpack_books, vorbis_book_init_decode and Huffman decode, floor/residue/mapping inverse kernels, stack budget (alloca) monitor. The claim is therefore memory safety and termination of the listed units only, not of the whole packet API.'}
 import importlib.util as _u, os as _o
 def _blk():
     p=_o.path.join(_o.path.dirname(_o.path.dirname(_o.path.abspath(__file__))),'block','jobs_common.py'); sp=_u.spec_from_file_location('blk',p); m=_u.module_from_spec(sp); sp.loader.exec_module(m); return m
